@@ -90,7 +90,26 @@ class AppStack:
             tty = self.tty = W.SimTTY(w, "tty", cols, rows)
             term = self.term = RefTerm(cols, rows)
             out = W.SimTTYOut(w, tty, term)
+            # which SIGWINCH the application has caught up with: size asked for after the last one AND a frame drawn
+            # after asking (the raw display consumes its resize flag before the resize has settled)
+            self.winch_count = 0
+            self.size_query_at = 0
+            self.drawn_since_query = True
+
+            def on_query():
+                self.size_query_at = self.winch_count
+                self.drawn_since_query = False
+
+            tty.on_winsz_query = on_query
             screen = self.screen = prd.Screen(input=W.SimTTYIn(tty), output=out)
+            real_draw = screen.draw_screen
+
+            def draw_screen(size, canvas):
+                rv = real_draw(size, canvas)
+                self.drawn_since_query = True
+                return rv
+
+            screen.draw_screen = draw_screen
             box = loops.make_loop(cfg.get("loop", "select"), w)
             self.top = self.factory()
 
@@ -131,6 +150,7 @@ class AppStack:
                     def winch(c=e["cols"], r=e["rows"]):
                         tty.cols, tty.rows = c, r
                         term.resize(c, r)
+                        self.winch_count += 1
                         res.fault("stack_sigwinch")
                         h = signal.getsignal(signal.SIGWINCH)
                         if callable(h):
@@ -190,6 +210,8 @@ class AppStack:
         if not scr.started:
             return
         if scr._resized or ml.screen_size is None or tuple(ml.screen_size) != (tty.cols, tty.rows):  # noqa: SLF001
+            return
+        if self.size_query_at != self.winch_count or not self.drawn_since_query:
             return
         if (term.cols, term.rows) != (tty.cols, tty.rows):
             return
